@@ -39,7 +39,7 @@ def taken_ctx_box(w):
     return None
 
 
-def run(ck):
+def rules(ck, P='C03'):
     f = ck.facts
     ix = {n: field_index(f, CTX, n) for n in ('label', 'protocol_type', 'frag_id', 'total_len', 'pdu_len', 'from_label_reuse', 'extensions_header')}
     v_completed = variant_index(f, DS, 'CompletedPkt')
@@ -54,11 +54,11 @@ def run(ck):
     allowed = {DEC + 'decap_complete', DEC + 'decap_end'}
     for k in sites:
         if k not in allowed:
-            ck.finding('C03.R1', k, 'constructs-completed', f"{short(k)} constructs DecapStatus::CompletedPkt; only decap_complete and decap_end (behind the total-length and CRC checks) may")
-    ck.rule('C03.R1 construction sites of DecapStatus::CompletedPkt', sum(sites.values()), 2)
+            ck.finding(f'{P}.R1', k, 'constructs-completed', f"{short(k)} constructs DecapStatus::CompletedPkt; only decap_complete and decap_end (behind the total-length and CRC checks) may")
+    ck.rule(f'{P}.R1 construction sites of DecapStatus::CompletedPkt', sum(sites.values()), 2)
     for k in allowed:
         if k not in sites:
-            ck.finding('C03.R1', k, 'anchor-lost', f"{short(k)} no longer constructs CompletedPkt (kind=anchor-lost)")
+            ck.finding(f'{P}.R1', k, 'anchor-lost', f"{short(k)} no longer constructs CompletedPkt (kind=anchor-lost)")
     a = decap_analysis(ck)
     buf = a.arg('buffer')
     # ---- R3: arguments of the CRC recomputation (decap_end), evaluated at the call
@@ -71,7 +71,7 @@ def run(ck):
         pdu, pt, tl, lab = args[1], args[2], args[3], args[4]
         cb = taken_ctx_box(W)
         if cb is None or cb[0][0] != 'agg' or cb[1][0] != 'box':
-            ck.finding('C03.R3', r.site[0], 'no-taken-context', 'decap_end: CRC computed without a context taken from the memory', r.site)
+            ck.finding(f'{P}.R3', r.site[0], 'no-taken-context', 'decap_end: CRC computed without a context taken from the memory', r.site)
             continue
         ctx, box = cb[0][1], cb[1]
         gse = ghost_gse_len(a, W)
@@ -80,20 +80,20 @@ def run(ck):
         if pdu[0] == 'slice' and pdu[1].root == box[1] and W.store.entails_eq(pdu[2], Lin.c(0)) and n is not None and W.store.entails_eq(pdu[3], ctx[ix['pdu_len']][1] + n):
             ck.discharged += 1
         else:
-            ck.finding('C03.R3', r.site[0], 'crc-pdu-window', 'decap_end: the CRC is not computed over storage[0 .. context.pdu_len + payload of this packet)', r.site)
+            ck.finding(f'{P}.R3', r.site[0], 'crc-pdu-window', 'decap_end: the CRC is not computed over storage[0 .. context.pdu_len + payload of this packet)', r.site)
         if veq(W, pt, ctx[ix['protocol_type']]):
             ck.discharged += 1
         else:
-            ck.finding('C03.R3', r.site[0], 'crc-ptype', "decap_end: CRC protocol type is not the first fragment's", r.site)
+            ck.finding(f'{P}.R3', r.site[0], 'crc-ptype', "decap_end: CRC protocol type is not the first fragment's", r.site)
         if veq(W, tl, ctx[ix['total_len']]):
             ck.discharged += 1
         else:
-            ck.finding('C03.R3', r.site[0], 'crc-total-length', "decap_end: CRC total length is not the first fragment's", r.site)
+            ck.finding(f'{P}.R3', r.site[0], 'crc-total-length', "decap_end: CRC total length is not the first fragment's", r.site)
         # R2a: the total-length comparison has been passed, in full width
         if lab[0] == 'slice' and W.store.entails_eq(ctx[ix['total_len']][1], pdu[3] + 2 + lab[3]):
             ck.discharged += 1
         else:
-            ck.finding('C03.R2', r.site[0], 'total-length-not-verified', 'decap_end: the CRC (and the delivery behind it) is reached without total_len == received length + 2 + label length having been established', r.site)
+            ck.finding(f'{P}.R2', r.site[0], 'total-length-not-verified', 'decap_end: the CRC (and the delivery behind it) is reached without total_len == received length + 2 + label length having been established', r.site)
         # label bytes: the context label, or nothing after a re-use first fragment
         reuse = W.facts.get(ctx[ix['from_label_reuse']][1][1]) if ctx[ix['from_label_reuse']][0] == 'bool' and ctx[ix['from_label_reuse']][1][0] == 'opq' else None
         okl = False
@@ -105,9 +105,9 @@ def run(ck):
         if okl:
             ck.discharged += 1
         else:
-            ck.finding('C03.R3', r.site[0], f"crc-label:{reuse}", f"decap_end: CRC label argument is not {'empty' if reuse else 'the bytes of the context label'} (from_label_reuse={reuse})", r.site)
+            ck.finding(f'{P}.R3', r.site[0], f"crc-label:{reuse}", f"decap_end: CRC label argument is not {'empty' if reuse else 'the bytes of the context label'} (from_label_reuse={reuse})", r.site)
         ck.sample({'crc call': site_str(r.site), 'from_label_reuse': reuse, 'label_len': lab[3].pretty() if lab[0] == 'slice' else '?', 'pdu_window': f"[0, {pdu[3].pretty()})" if pdu[0] == 'slice' else '?'})
-    ck.rule('C03.R3 CRC recomputation call sites (per partition)', ncrc, 3)
+    ck.rule(f'{P}.R3 CRC recomputation call sites (per partition)', ncrc, 3)
     # ---- R2b / R4: completed returns of end packets
     nend = 0
     for w, rv in a.rets:
@@ -122,7 +122,7 @@ def run(ck):
                 continue
             for sv, sfs in st[1]:
                 if sv != v_completed:
-                    ck.finding('C03.R2', DEC + 'decap_end', f"end-status:{sv}", 'an end packet yields a status other than CompletedPkt')
+                    ck.finding(f'{P}.R2', DEC + 'decap_end', f"end-status:{sv}", 'an end packet yields a status other than CompletedPkt')
                     continue
                 nend += 1
                 ck.obligations += 3
@@ -133,13 +133,13 @@ def run(ck):
                 if cv is not None and cv[0] == 'int' and cc is not None and w.store.entails_eq(cc[1], Lin.c(1)) and recv is not None and w.store.entails_eq(cv[1], recv):
                     ck.discharged += 1
                 else:
-                    ck.finding('C03.R2', DEC + 'decap_end', 'crc-not-verified', 'decap_end: a completed PDU is delivered without computed CRC == big-endian trailer (last four bytes of the packet) having been established')
+                    ck.finding(f'{P}.R2', DEC + 'decap_end', 'crc-not-verified', 'decap_end: a completed PDU is delivered without computed CRC == big-endian trailer (last four bytes of the packet) having been established')
                 cb = taken_ctx_box(w)
                 bx, md = sfs[0], sfs[1]
                 if cb is not None and bx[0] == 'box' and cb[1][0] == 'box' and bx[1] == cb[1][1]:
                     ck.discharged += 1
                 else:
-                    ck.finding('C03.R4', DEC + 'decap_end', 'delivered-box', 'decap_end: the delivered buffer is not the storage taken for this fragment id')
+                    ck.finding(f'{P}.R4', DEC + 'decap_end', 'delivered-box', 'decap_end: the delivered buffer is not the storage taken for this fragment id')
                 okm = False
                 if cb is not None and md[0] == 'agg' and gse is not None:
                     ctx = cb[0][1]
@@ -149,8 +149,8 @@ def run(ck):
                 if okm:
                     ck.discharged += 1
                 else:
-                    ck.finding('C03.R4', DEC + 'decap_end', 'delivered-metadata', "decap_end: delivered metadata are not (context.pdu_len + payload, first fragment's protocol type and label)")
-    ck.rule('C03.R2 completed returns of end packets', nend, 1)
+                    ck.finding(f'{P}.R4', DEC + 'decap_end', 'delivered-metadata', "decap_end: delivered metadata are not (context.pdu_len + payload, first fragment's protocol type and label)")
+    ck.rule(f'{P}.R2 completed returns of end packets', nend, 1)
     # ---- R5/R3b: where payload bytes go (arrival-order concatenation) and lossless bookkeeping
     nw = 0
     for r in a.events('write'):
@@ -173,11 +173,11 @@ def run(ck):
         if good:
             ck.discharged += 1
         else:
-            ck.finding('C03.R5', r.site[0], f"append-position:{fn}", f"{fn}: payload is not appended as {what}", r.site)
-    ck.rule('C03.R5 payload copies into storage', nw, 4)
+            ck.finding(f'{P}.R5', r.site[0], f"append-position:{fn}", f"{fn}: payload is not appended as {what}", r.site)
+    ck.rule(f'{P}.R5 payload copies into storage', nw, 4)
     for r in a.events('lossy_cast'):
         if short(r.site[0]) in ('decap_first', 'decap_intermediate', 'decap_end'):
-            ck.finding('C03.R5', r.site[0], f"lossy-cast:{short(r.site[0])}:{r.data[1].pretty()}", f"{short(r.site[0])}: the length bookkeeping goes through a lossy cast of {r.data[1].pretty()} to {r.data[2]}", r.site)
+            ck.finding(f'{P}.R5', r.site[0], f"lossy-cast:{short(r.site[0])}:{r.data[1].pretty()}", f"{short(r.site[0])}: the length bookkeeping goes through a lossy cast of {r.data[1].pretty()} to {r.data[2]}", r.site)
     # ---- R5c: the context saved by decap_intermediate advances pdu_len by exactly the payload
     nsave = 0
     for r in a.events('call'):
@@ -198,8 +198,8 @@ def run(ck):
         if ok:
             ck.discharged += 1
         else:
-            ck.finding('C03.R5', r.site[0], 'saved-context', 'decap_intermediate: the context saved is not the taken one with pdu_len advanced by exactly the payload of this packet', r.site)
-    ck.rule('C03.R5 save_frag calls of decap_intermediate', nsave, 1)
+            ck.finding(f'{P}.R5', r.site[0], 'saved-context', 'decap_intermediate: the context saved is not the taken one with pdu_len advanced by exactly the payload of this packet', r.site)
+    ck.rule(f'{P}.R5 save_frag calls of decap_intermediate', nsave, 1)
     # ---- R7: the context created by a first fragment comes from this packet only
     nnew = 0
     for r in a.events('call'):
@@ -220,8 +220,8 @@ def run(ck):
         if ok:
             ck.discharged += 1
         else:
-            ck.finding('C03.R7', r.site[0], 'new-context', 'decap_first: the new context does not take total length / fragment id / received length from this packet', r.site)
-    ck.rule('C03.R7 new_frag calls of decap_first', nnew, 1)
+            ck.finding(f'{P}.R7', r.site[0], 'new-context', 'decap_first: the new context does not take total length / fragment id / received length from this packet', r.site)
+    ck.rule(f'{P}.R7 new_frag calls of decap_first', nnew, 1)
     # ---- R6: the bundled memory returns the context stored under the requested id
     inv = mem_invariant(f)
     tk = ck.analyse(MEM + 'take_frag', {'kslots': 8}, assume=inv)
@@ -235,8 +235,13 @@ def run(ck):
                 if ctxv[0] == 'agg' and ctxv[1][ix['frag_id']][0] == 'int' and w.store.entails_eq(ctxv[1][ix['frag_id']][1], tk.arg('frag_id')[1]):
                     ck.discharged += 1
                 else:
-                    ck.finding('C03.R6', MEM + 'take_frag', 'id-not-compared', 'SimpleGseMemory::take_frag can return a context whose frag_id was not shown equal to the requested id')
-    ck.rule('C03.R6 Ok returns of SimpleGseMemory::take_frag', nt, 1)
+                    ck.finding(f'{P}.R6', MEM + 'take_frag', 'id-not-compared', 'SimpleGseMemory::take_frag can return a context whose frag_id was not shown equal to the requested id')
+    ck.rule(f'{P}.R6 Ok returns of SimpleGseMemory::take_frag', nt, 1)
+    return None
+
+
+def run(ck):
+    rules(ck)
     ck.assumptions += ['error-detection strength of CRC-32 (bursts <= 32 bits) is a theorem about the polynomial pinned down by C12, not decided here',
                        'the quantifier over fault sequences is covered through: whatever arrives, a delivery passes both comparisons over the bytes actually stored (R2, R3, R5)',
                        'user GseDecapMemory obeys its contract (take_frag returns what save_frag/new_frag stored under that id)']
